@@ -1503,13 +1503,8 @@ impl TestTextSelection for TextSelectionSet {
                 .unwrap()
                 .test(operator, reftextsel, resource),
             TextSelectionOperator::SameRange { negate: false, .. } => {
-                self.leftmost()
-                    .unwrap()
-                    .test(operator, reftextsel, resource)
-                    && self
-                        .rightmost()
-                        .unwrap()
-                        .test(operator, reftextsel, resource)
+                self.leftmost().unwrap().begin == reftextsel.begin
+                    && self.rightmost().unwrap().end == reftextsel.end
             }
 
             //negations
@@ -1663,13 +1658,11 @@ impl TestTextSelection for TextSelectionSet {
                 .unwrap()
                 .test_set(operator, refset, resource),
             TextSelectionOperator::SameRange { negate: false, .. } => {
-                self.leftmost()
-                    .unwrap()
-                    .test_set(operator, refset, resource)
-                    && self
-                        .rightmost()
-                        .unwrap()
-                        .test_set(operator, refset, resource)
+                if refset.is_empty() {
+                    return false;
+                }
+                self.leftmost().unwrap().begin == refset.leftmost().unwrap().begin
+                    && self.rightmost().unwrap().end == refset.rightmost().unwrap().end
             }
 
             //negations
